@@ -1,0 +1,11 @@
+//go:build verif
+
+// Verification hook (additive, only built with -tags verif): lets the /verif harness run one
+// reconcile pass of the IP pool controller synchronously instead of through the workqueue worker.
+
+package ippool
+
+// VerifReconcile runs one full reconcile pass (conditions, then finalizers) and returns its error.
+func (c *IPPoolController) VerifReconcile() error {
+	return c.reconcile()
+}
